@@ -33,13 +33,14 @@ Definition check_probe (cs : list int * (list (list int) * list (list int))) : v
 
 (* relay case. cfg: [2; req_seq; timeout; want_nack]; ops: arrivals relative to the relay's own ping, with
    seq 0 = the local sequence number the relay chose, anything else foreign;
-   obs: [[acks_relayed; nacks_sent; acks_with_requesters_seq; local_seq_differs; handlers_left]] *)
+   obs: [[acks_relayed (attempts); nacks_sent; acks_with_requesters_seq; local_seq_differs; handlers_left; handler_panicked]] *)
 Definition check_relay (cs : list int * (list (list int) * list (list int))) : verdict :=
   match fst cs, snd (snd cs) with
-  | [_; rseq; tmo; wn], [[acks; nacks; acksok; fresh; hleft]] =>
+  | [_; rseq; tmo; wn], [[acks; nacks; acksok; fresh; hleft; pan]] =>
       let ri := mkRI (zi rseq) 0 (zi tmo) (bi wn) (dec_all dec_arr (fst (snd cs))) in
       let '(ma, mn) := relay_result ri in
-      if negb (Uint63.eqb hleft 0) then mkV 401 1
+      if bi pan then mkV 408 0
+      else if negb (Uint63.eqb hleft 0) then mkV 401 1
       else if negb (Uint63.eqb acks acksok) then mkV 404 0
       else if negb (bi fresh) then mkV 405 0
       else if (1 <? zi acks) || (1 <? zi nacks) || (1 <? zi acks + zi nacks) then mkV 406 0
